@@ -5,12 +5,18 @@ go 1.23
 require golang.org/x/tools v0.29.0
 
 require (
+	github.com/gogs/chardet v0.0.0-20211120154057-b7413eaefb8f // indirect
 	golang.org/x/mod v0.22.0 // indirect
 	golang.org/x/sync v0.10.0 // indirect
+	golang.org/x/text v0.9.0 // indirect
 )
 
 require (
 	github.com/andybalholm/cascadia v1.3.2
+	github.com/go-shiori/dom v0.0.0-20230515143342-73569d674e1c
 	golang.org/x/net v0.34.0
 )
+
 replace golang.org/x/net => /root/go/pkg/mod/golang.org/x/net@v0.10.0
+
+replace golang.org/x/term => ./stubs/term
